@@ -402,7 +402,8 @@ def _onepass(check: Check, fi: FuncInfo):
         pass
     if wmean._loop_of(ff, x) is not None and not (isinstance(parent, (ast.For,)) and parent.iter is x):
       lp = wmean._loop_of(ff, x)
-      if not (isinstance(lp, ast.For) and lp.iter is x):
+      in_header = isinstance(lp, ast.For) and any(x is y for y in ast.walk(lp.iter)) and wmean._loop_of(ff, lp) is None
+      if not in_header:
         problems.append(f'consumed inside a loop at line {x.lineno}')
   if len(loads) > 1:
     problems.append(f'{len(loads)} uses of the iterable ({[x.lineno for _, x in loads]})')
